@@ -206,4 +206,17 @@ def faults (fl : Flags) (isLower isUpper : Char → Bool) (stmts : List Stmt) : 
   let loops := (cyclicNodes (eAssign ++ eComp) ++ cyclicNodes eConst).map fun n => (⟨.loop, n⟩ : Fault)
   bankFaults ++ f1 ++ f2 ++ f3 ++ f4 ++ f5 ++ f6a ++ f6b ++ f6c ++ f7 ++ wAssign ++ wConst ++ wDefault ++ loops
 
+/-! ### is a reported dependency loop real? (specification side of the oracle for loop reports) -/
+
+/-- wire `u` is read by what drives `v`: a definition `v = e` or `const v = e` that mentions `u`, or a built-in
+    component with output `v` and input `u` -/
+def dependsOn (stmts : List Stmt) (u v : String) : Bool :=
+  let a := stmts.foldl elabStmt {}
+  (a.constDefs ++ a.assigns).any (fun p => p.1 == v && (refs p.2).contains u) ||
+  components.any (fun c => c.output == some v && c.inputs.contains u)
+
+/-- the names form a cycle of the dependency relation: each is read by what drives the next, the last by what drives the first -/
+def loopReal (stmts : List Stmt) (c : List String) : Bool :=
+  !c.isEmpty && ((c.zip (c.rotateLeft 1)).all fun p => dependsOn stmts p.1 p.2)
+
 end Spec
